@@ -79,6 +79,46 @@ def _parents(root: ast.AST) -> Dict[int, ast.AST]:
 
 
 INSENSITIVE_CALLS = {"sorted", "set", "frozenset", "any", "all", "len", "sum", "min", "max"}
+SET_METHODS = {"union", "update", "intersection", "intersection_update", "difference", "difference_update", "symmetric_difference", "issubset", "issuperset", "isdisjoint"}
+
+
+def _flows_insensitive(fi: FuncInfo, e: ast.AST, parents, depth: int) -> bool:
+    if depth > 6:
+        return False
+    par = parents.get(id(e))
+    if isinstance(par, ast.Call):
+        if isinstance(par.func, ast.Name) and par.func.id in INSENSITIVE_CALLS and e in par.args:
+            return True
+        if isinstance(par.func, ast.Attribute) and par.func.attr in SET_METHODS and e in par.args:
+            return True
+        if isinstance(par.func, ast.Name) and par.func.id in ("list", "tuple", "iter", "reversed") and e in par.args:
+            return _flows_insensitive(fi, par, parents, depth + 1)
+        return False
+    if isinstance(par, ast.Starred):
+        gp = parents.get(id(par))
+        if isinstance(gp, ast.Call) and ((isinstance(gp.func, ast.Attribute) and gp.func.attr in SET_METHODS) or (isinstance(gp.func, ast.Name) and gp.func.id in ("set", "frozenset"))):
+            return True
+        if isinstance(gp, (ast.List, ast.Tuple, ast.Set)):
+            return isinstance(gp, ast.Set) or _flows_insensitive(fi, gp, parents, depth + 1)
+        return False
+    if isinstance(par, ast.BinOp) and isinstance(par.op, (ast.Add, ast.BitOr, ast.BitAnd, ast.Sub)):
+        return _flows_insensitive(fi, par, parents, depth + 1)
+    if isinstance(par, ast.comprehension) and par.iter is e:
+        comp = parents.get(id(par))
+        if isinstance(comp, ast.SetComp):
+            return True
+        return comp is not None and _flows_insensitive(fi, comp, parents, depth + 1)
+    if isinstance(par, (ast.Assign, ast.AnnAssign)) and getattr(par, "value", None) is e:
+        tgts = par.targets if isinstance(par, ast.Assign) else [par.target]
+        if len(tgts) != 1 or not isinstance(tgts[0], ast.Name):
+            return False
+        name = tgts[0].id
+        stores = [n for n in ast.walk(fi.node) if isinstance(n, ast.Name) and n.id == name and isinstance(n.ctx, ast.Store)]
+        loads = [n for n in ast.walk(fi.node) if isinstance(n, ast.Name) and n.id == name and isinstance(n.ctx, ast.Load)]
+        if len(stores) != 1 or not loads:
+            return False
+        return all(_flows_insensitive(fi, u, parents, depth + 1) for u in loads)
+    return False
 
 
 def _auto_ok(fi: FuncInfo, node: ast.AST, it: ast.expr, how: str, parents, sk: SetKinds, env) -> Optional[str]:
@@ -95,6 +135,11 @@ def _auto_ok(fi: FuncInfo, node: ast.AST, it: ast.expr, how: str, parents, sk: S
             cur = par
             continue
         break
+    # the value built from the unordered iteration reaches nothing but order-insensitive consumers (through locals, list
+    # concatenation, further comprehensions and * splats)
+    if how in ("comp", "comp-list", "comp-gen") or isinstance(node, (ast.ListComp, ast.GeneratorExp)):
+        if _flows_insensitive(fi, node, parents, 0):
+            return "every use of the built value is an order-insensitive consumer (set algebra, sorted, any/all/len, set(...))"
     # inside a raise statement / warning: diagnostics text only
     cur = node
     while cur is not None:
@@ -152,6 +197,17 @@ def _used_after(name, loop, fi) -> bool:
 def _check_loop_builds_set(ctx, fi, node, it):
     sk = SetKinds(ctx.repo)
     env = sk.local_kinds(fi)
+    if not isinstance(node, (ast.For, ast.AsyncFor)):
+        # the loop was written (or normalised) as a comprehension: only a set comprehension keeps the result order-free
+        if isinstance(node, ast.SetComp):
+            return None
+        par = _parents(fi.node).get(id(node))
+        if isinstance(node, ast.GeneratorExp) and isinstance(par, (ast.Call, ast.Starred)):
+            cc = par if isinstance(par, ast.Call) else _parents(fi.node).get(id(par))
+            if isinstance(cc, ast.Call) and ((isinstance(cc.func, ast.Name) and cc.func.id in ("set", "frozenset", "any", "all", "sum", "len", "min", "max")) or
+                                             (isinstance(cc.func, ast.Attribute) and cc.func.attr in ("union", "update", "intersection", "difference", "issubset", "issuperset", "isdisjoint"))):
+                return None
+        return f"the iteration now builds an ordered value: {norm(node)[:80]}"
     for st in node.body if isinstance(node, ast.For) else []:
         for sub in ast.walk(st):
             if isinstance(sub, ast.Call) and isinstance(sub.func, ast.Attribute) and sub.func.attr in ("append", "extend", "insert"):
